@@ -86,7 +86,7 @@ theorem bundle_replay_far_witness :
 
 Sender: any pool reachable from the empty pool (`poolRun`) whose ghost log (`poolLog`: block registrations +
 `CertCreated` events, `Proofs/PoolWiring.lean`) is `Consistent` (C07/C08 premise: the finality inputs are `Safe`, no
-skip certificate for a finalized slot), recovery triggered after this — i.e. after *every* prefix of every such
+skip certificate for a finalized slot, the only finalized block of slot 0 is genesis), recovery triggered after this — i.e. after *every* prefix of every such
 history.  Receiver: the empty pool of the same epoch, fed the bundle's certificates (`add_cert`) and own votes
 (`add_vote`) in **any order**, with repetitions, every certificate at least once.
 
